@@ -527,16 +527,12 @@ func (b *BaseStore) Load(ctx context.Context, amount int) error {
 	progress := make(chan ifacelog.IPFSLogEntry)
 	defer close(progress)
 	go func() {
-		for {
-			var entry ifacelog.IPFSLogEntry
-			select {
-			case <-ctx.Done():
-				return
-			case entry = <-progress:
-				if entry == nil {
-					// should not happen
-					return
-				}
+		// drain until the channel is closed: the fetcher sends on it outside any
+		// select and would block forever if the reader left on cancellation
+		for entry := range progress {
+			if entry == nil {
+				// should not happen
+				continue
 			}
 
 			b.recalculateReplicationStatus(entry.GetClock().GetTime())
